@@ -91,3 +91,9 @@ claim("C11", "history-based testing: Hypothesis-generated call sequences run in 
       "subclasses with path resolvers; every step's outcome must equal the outcome of that call in its own pristine child and the digest of every module/class-level container of the package must not change. "
       "Streams of 2-5 generated documents must parse/compose/load item-wise like the documents alone; handles, anchors, %YAML and alias numbering must not carry over to the next document.",
       "Trusted: os.fork from a process that imported yaml but never called it as a stand-in for a fresh interpreter; the digest in vlib/c11_pool.py (state hidden inside C objects or closures is not seen by it, only by outcomes).")
+claim("C18", "property-based testing with an instrumented stream (monitor of consumed offset and read() calls at every delivery) and a metamorphic tail-length relation (Hypothesis)",
+      "Generated streams of 1-10 documents of sizes from empty to several refill blocks, tokens longer than a block, explicit '...' ends, one optionally malformed document (incl. content directly after '...'), "
+      "tails of 0-20 blocks, text or byte delivery with drawn read sizes x scan/parse/compose_all/load_all x both back-ends. Oracle: at the delivery of document k at most two refill blocks (4096 / 16384) beyond "
+      "its end were consumed, the same amount when the tail is four times longer, a bounded number of read() calls; documents before a malformed one are delivered before its error (the error it gives alone); "
+      "closing the generator disposes the loader and reads nothing more.",
+      "Trusted: the block constants 4096 / 16384 (what the unchanged library requests) and the offsets computed by the generator.")
